@@ -12,6 +12,18 @@
 // @oracle after the load sequence every scalar member equals its value in a freshly constructed engine and every pointer member is null / non-null as in the fresh one: no scalar survives a load (LoadDatabase returns the instance to the fresh state; results never depend on what an earlier instance left in memory)
 // @stubs PHRQ_io::error_msg / warning_msg / output_msg (events)
 // @outside clean_up / do_initialize (they walk containers whose sizes must agree with the scalar counts: arbitrary scalars are not a reachable state for them); contents of containers (see C07.containers_cleared) and of heap blocks behind pointers; scalars that live inside standard-library members
+// @id C07.owned_objects_and_caches_dropped
+// @engine B
+// @entry vfh_C07_owned_and_caches
+// @shared_state_watch
+// @tier Q
+// @opts max_steps=60000000 budget_s=600
+// @reach reinit.compared
+// @funcs Phreeqc::clean_up; Phreeqc::pitzer_clean_up; Phreeqc::read_master_species
+// @bounds a really constructed engine in the state a Pitzer database with -APHI and earlier formula-weight look-ups leave (the optional A-phi polynomial owned through a raw pointer; entries in the formula-weight cache), followed by what a database load does: clean_up, init, do_initialize and the reading of the new SOLUTION_MASTER_SPECIES block by the real reader
+// @oracle after a load the instance behaves like a fresh one that loaded the same database: nothing computed from the previous database is still consulted - the A-phi polynomial of the previous database is gone (the Debye-Hueckel slope comes from the default formulation) and the formula-weight cache holds no entry of the previous database (these are the two members the field-by-field and container comparisons cannot decide: one is behind a pointer, the other is exempted there on the strength of this reader)
+// @stubs PHRQ_io::error_msg / warning_msg / output_msg (events)
+// @outside other heap blocks behind raw pointers (transport work space: C06.transport_state_per_instance)
 #include "Phreeqc.h"
 #include "vf.h"
 #include <new>
@@ -56,4 +68,29 @@ extern "C" void vfh_C07_reinit(void)
 		"dump_info.base_error_count|dump_info.binList.base_error_count|delete_info.base_error_count|run_info.base_error_count|"
 		"dump_info.binList.cell.defined|delete_info.cell.defined|"
 		"mixrun|sit_aqueous_unknowns|kgw_kgs|bdot_llnl|solution_volume_x|solution_mass_x|rho_0_sat|SC|fpunchf_user_buffer|token");
+}
+
+/* members the field-by-field comparison cannot reach: an object owned through a raw pointer, and a cache whose exemption in
+   C07.all_containers_reset rests on "cleared whenever SOLUTION_MASTER_SPECIES is read" */
+#include <sstream>
+extern "C" void vfh_C07_owned_and_caches(void)
+{
+	PHRQ_io io;
+	Phreeqc *p = new Phreeqc(&io);
+	p->clean_up(); p->init(); p->do_initialize();
+	/* a used state: a Pitzer database with -APHI was loaded, formula weights were looked up */
+	p->aphi = new pitz_param();
+	p->aphi->type = TYPE_APHI;
+	p->gfw_map["SO4"] = 96.064; p->gfw_map["H2O"] = 18.016;
+	/* the next load */
+	p->clean_up(); p->init(); p->do_initialize();
+	vf_check("load.aphi_polynomial_of_previous_database_released", p->aphi == NULL);
+	std::string text("Na Na+ 0 Na 22.9898\nCl Cl- 0 Cl 35.453\nEND\n");        /* the SOLUTION_MASTER_SPECIES block of the new database */
+	std::istringstream is(text);
+	io.push_istream(&is, false);
+	int rv = p->read_master_species();
+	io.pop_istream();
+	vf_reach("reinit.compared");
+	vf_check("load.master_species_read", rv == KEYWORD || rv == EOF);
+	vf_check("load.formula_weight_cache_of_previous_database_dropped", p->gfw_map.count("SO4") == 0 && p->gfw_map.count("H2O") == 0);
 }
